@@ -18,6 +18,7 @@ META = {
         "generated: mesh patterns up to length 4 against permutations up to length 8 with a density mixture, "
         "mixed lists of classical and mesh-type patterns, overlapping lazy enumerations with one pattern object. Non-trivial: classical occurrences of the underlying "
         "pattern exist and the shading / adjacency removes some but not all of them. Distinct = case content."
+        " Light sweep: mesh patterns of length 2-3 with one or two shaded cells in every target of a length (to 8 quick, 9 thorough); non-trivial there = the shading removes some but not all classical occurrences."
     ),
     "assumptions": [
         "mesh oracle: classical occurrences (combinations) filtered by counting the cell of every other point",
